@@ -22,6 +22,14 @@ Theorem C07_scoped :
     map fst (d_params dc) = map fst (c_params (attrs_of d)).
 Proof. intros ? ? ? R fuel id d dc Henv. exact (decl_scoped _ _ _ R Henv fuel id d dc). Qed.
 
+Theorem C07_defaults_scoped :
+  forall is_upper is_alnum is_numeric R fuel id d dc,
+    (forall id d, lookup R id = Some d -> src_def d = true) ->
+    lookup R id = Some d ->
+    decl_of is_upper is_alnum is_numeric R fuel d = Ok dc ->
+    forall p x, In p (d_params dc) -> snd p = Some x -> incl (ftv x) (map fst (c_params (attrs_of d))).
+Proof. intros ? ? ? R fuel id d dc Henv. exact (decl_defaults_scoped _ _ _ R Henv fuel id d dc). Qed.
+
 Theorem C07_params :
   forall is_upper is_alnum is_numeric R fuel d dc,
     decl_of is_upper is_alnum is_numeric R fuel d = Ok dc ->
@@ -29,7 +37,7 @@ Theorem C07_params :
     Forall2 (fun p q => fst q = fst p /\
                         match snd p with
                         | None => snd q = None
-                        | Some u => exists x, name_of R u = Ok x /\ snd q = Some x
+                        | Some u => exists x, name_of R (rsubst (dummies (attrs_of d)) u) = Ok x /\ snd q = Some x
                         end) (c_params (attrs_of d)) (d_params dc).
 Proof. exact decl_params. Qed.
 
@@ -97,6 +105,7 @@ Example C07_known_class_witness :
 Proof. eexists; eexists; eexists. repeat split; vm_compute; reflexivity. Qed.
 
 Print Assumptions C07_scoped.
+Print Assumptions C07_defaults_scoped.
 Print Assumptions C07_params.
 Print Assumptions C07_name.
 Print Assumptions C07_instantiate.
